@@ -204,7 +204,13 @@ CLAIMED.update({
                  'offered complementary descriptors ($ with $ of equal order digit, > with < of identical label and order), a '
                  'growth step adds the fragment copy (template atoms, fresh keys, running membership) and exactly one bond '
                  'carrying the descriptor pair and the order digit, node set preserved, canonical numbering (L-sort), valence '
-                 'completeness via C09. Tied to the code by replaying the recorded random decisions of every real run into '
+                 'completeness via C09. For EVERY run (C16_run: any library of templates with distinct keys, closed bonds, each in '
+                 'one piece; any reactivities, target, start fragment and decision list, any number of steps) the molecule the '
+                 'growth loop returns has distinct keys, only bonds between its own atoms and is connected (loop invariant '
+                 'RunInv by induction over the loop), and in every reachable state a step leaves the old bonds untouched and '
+                 'attaches the new copy by exactly one bond from an old atom to an atom of the copy, all other new bonds '
+                 'inside the copy (C16_step) — a tree of fragment copies; the library hypothesis is a Boolean the model '
+                 'evaluates on every library the real reader produced (cfgWFb_sound). Tied to the code by replaying the recorded random decisions of every real run into '
                  'the model (exact molecule dump) + structural oracle.'),
         'note': RESOLVE_NOTE + 'random.choice(s) are parameters (contract G0 checked per call).',
         'design': '§7 C16',
